@@ -36,7 +36,7 @@ def shards(tier):
     return 8 if tier == "quick" else 16
 
 
-TIMEOUT = {"quick": 240, "thorough": 1500}
+TIMEOUT = {"quick": 400, "thorough": 1500}
 
 SLOTS = ("iv", "key", "mac_key")
 SLOT_NAME = dict(iv="IV", key="encryption key", mac_key="MAC key")
@@ -254,7 +254,9 @@ def handshake_case(ctx, rng, cipher, mac, kex, rekey):
     wit = dict(kind="handshake", cipher=cipher, mac=mac, kex=kex, rekey=rekey)
     try:
         if not P.start(timeout=90):
-            ctx.inconclusive("handshake did not complete (%s %s %s): %r / %r" % (kex, cipher, mac, P.client_exc, P.server_exc))
+            # no verdict from this handshake; the floor on observed handshakes decides
+            ctx.count("handshakes_abandoned")
+            ctx.note("handshake_abandoned_reason", "%s %s %s: %r / %r" % (kex, cipher, mac, P.client_exc, P.server_exc))
             return
         want = 1
         if rekey:
@@ -267,7 +269,8 @@ def handshake_case(ctx, rng, cipher, mac, kex, rekey):
             return [pb.installed_epochs(klog, ev, s, d) for s in "cs" for d in ("out", "in")]
 
         if not vpair.wait_for(lambda: all(len(x) >= want for x in captured()), timeout=60):
-            ctx.inconclusive("key capture incomplete after handshake (%s)" % [len(x) for x in captured()])
+            ctx.count("handshakes_abandoned")
+            ctx.note("handshake_abandoned_reason", "key capture incomplete %s" % [len(x) for x in captured()])
             return
         c_out, c_in, s_out, s_in = captured()
         ctx.count("handshakes_observed")
@@ -285,7 +288,8 @@ def handshake_case(ctx, rng, cipher, mac, kex, rekey):
         judge_directions(ctx, [slots_of(x) for x in c_out], [slots_of(x) for x in c_in], "client", wit)
         judge_directions(ctx, [slots_of(x) for x in s_out], [slots_of(x) for x in s_in], "server", wit)
     except Exception as e:
-        ctx.inconclusive("handshake harness error (%s %s %s): %r" % (kex, cipher, mac, e))
+        ctx.count("handshakes_abandoned")
+        ctx.note("handshake_abandoned_reason", "harness (%s %s %s): %r" % (kex, cipher, mac, e))
     finally:
         P.close()
 
@@ -293,7 +297,7 @@ def handshake_case(ctx, rng, cipher, mac, kex, rekey):
 def run(ctx):
     rng = ctx.rng
     KdfContract(ctx)
-    direct_cases(ctx, ctx.pick(12000, 60000))
+    direct_cases(ctx, ctx.pick(12000, 100000))
     suites = pb.offered_suites()
     kexes = [k for k in KEXES if k in Transport._kex_info]
     # (b) threadless benches: every suite, both roles
